@@ -58,6 +58,10 @@ func (c *Cluster) injected(verb string, kind ...string) error {
 		return &apierrors.StatusError{ErrStatus: metav1.Status{Status: metav1.StatusFailure, Code: 409, Reason: metav1.StatusReasonConflict, Message: msg}}
 	}
 	switch c.FailCode {
+	case 429:
+		return &apierrors.StatusError{ErrStatus: metav1.Status{Status: metav1.StatusFailure, Code: 429, Reason: metav1.StatusReasonTooManyRequests, Message: msg}}
+	case 503:
+		return &apierrors.StatusError{ErrStatus: metav1.Status{Status: metav1.StatusFailure, Code: 503, Reason: metav1.StatusReasonServiceUnavailable, Message: msg}}
 	case 403:
 		return &apierrors.StatusError{ErrStatus: metav1.Status{Status: metav1.StatusFailure, Code: 403, Reason: metav1.StatusReasonForbidden, Message: msg}}
 	case 422:
